@@ -336,6 +336,13 @@ def _pair_membership(it, pair, defs, model, fi, depth=0):
 
 
 # ------------------------------------------------------------------------------------------------
+def _anc(n):
+    p_ = getattr(n, "_parent", None)
+    while p_ is not None:
+        yield p_
+        p_ = getattr(p_, "_parent", None)
+
+
 @rule("C11.apply", "estimate() forwards options, takes the arg-max, stops when no move gains epsilon, and applies the matching edit per tag", floor=6)
 def apply(rc):
     repo = rc.repo
@@ -363,6 +370,19 @@ def apply(rc):
             continue
         if got != name:
             rc.fail(fi, c, f"option `{name}` of estimate() must reach the parameter `{name}` of _legal_operations (got {got})", construct=f"forward {name}")
+    # the named scores are built for the estimator's declared state names (HillClimbSearch(data, state_names=...))
+    for c_ in [x for x in ast.walk(fn) if isinstance(x, ast.Call) and isinstance(x.func, ast.Subscript) and "supported_methods" in norm(x.func.value)]:
+        sn_ = kwarg(c_, "state_names")
+        rc.ob(f"named score built as {norm(c_, 90)}")
+        if norm(kwarg(c_, "data") or ast.Constant(value=None)) != "self.data":
+            rc.fail(fi, c_, "the named score must be computed on the estimator's data", construct="score data")
+        if sn_ is None or norm(sn_) != "self.state_names":
+            # Gaussian scores take no state names: accept a guarded call without them only under a test on the method's name
+            par_if = [p_ for p_ in _anc(c_) if isinstance(p_, ast.If)]
+            gauss_branch = any("-g" in norm(p_.test) for p_ in par_if)
+            if not gauss_branch:
+                rc.fail(fi, c_, "the named score is built without the estimator's declared `state_names`: states that are declared but absent from the data are not counted, "
+                        "and the search result is not a local optimum for the declared state spaces", construct="score state_names")
     if "structure_score" in actual and not norm(actual["structure_score"]).endswith("structure_prior_ratio"):
         rc.fail(fi, c, "the structure prior ratio of the score must be passed as structure_score", construct="forward prior")
     model_var = dotted(actual.get("model"))
@@ -665,6 +685,8 @@ def defuse(rc):
     _sh.defuse_rule(rc, _sh.anchor_files("C11"))
 
 MUTANTS = [
+    dict(kind="break", name="named-score-without-declared-states", file=HC, expect="C11.apply",
+         old="                    data=self.data, state_names=self.state_names\n", new="                    data=self.data\n"),
     dict(kind="break", name="flip-cycle-test-bounded-path-search", file=HC, expect="C11.legal",
          old="map(lambda path: len(path) > 2, nx.all_simple_paths(model, X, Y))", new="map(lambda path: len(path) > 2, nx.all_simple_paths(model, X, Y, cutoff=2))"),
     dict(kind="break", name="add-no-cycle-check", file=HC, expect="C11.legal",
